@@ -9,7 +9,9 @@ ItemsA == <<"col", "async">>
 ItemsB == <<"async", "spinasync", "sync">>
 ItemsC == <<"once", "async", "spin">>
 ItemsD == <<"async", "col", "async">>
+ItemsE == <<"spinasync", "col">>
+ItemsF == <<"oncenull", "async">>
 
-ExportJson == Returned => PrintT(ToJson([items |-> Items, nrows |-> NRows, sched |-> sched,
+ExportJson == Returned => PrintT(ToJson([items |-> Items, nrows |-> NRows, nested |-> Nested, sched |-> sched,
                                          cell |-> [r \in Rows |-> [i \in Its |-> cell[r][i]]]]))
 =============================================================================
